@@ -154,7 +154,13 @@ Definition step (st : tkz) (o : op) : tkz * out :=
                   | None => (st, OKeyError)
                   end
       | [] => if has_path
-              then match get_all (fun n => match n with O => None | S k => nth_error file_lines k end) ns with
+              then match get_all (fun n => match n with
+                                           | O => None
+                                           | S k => match nth_error file_lines k with
+                                                    | Some l => Some l
+                                                    | None => if Nat.eqb k (List.length file_lines) then Some "" else None
+                                                    end
+                                           end) ns with
                    | Some l => (st, OLines l)
                    | None => (st, OKeyError)
                    end
